@@ -16,6 +16,7 @@ from mc.vloop import World, Livelock
 DELAYS = [0.25, 0.5, 1.0]
 OPS = ([("cb",), ("cb_raise",), ("cb_failfut",), ("spawn",), ("cb_nested",)] +
        [(k, d) for k in ("to_abs", "to_delta", "later", "at") for d in DELAYS] +
+       [("to_delta", 86400.5), ("to_delta", -1.0)] +
        [("rm", 0), ("rm", 1), ("cb_rm", 0), ("cb_rm", 1), ("to_rm", 0.75, 0), ("to_rm", 0.4, 1),
         ("addfut_done",), ("addfut_later",), ("to_raise", 0.6)])
 
@@ -265,13 +266,13 @@ def judge_sync(kind, timeout, o):
 class C38(Check):
     id = "C38"
     level = "model_checking"
-    rule = ("(a) all programs of <= L scheduling calls over 26 operations {add_callback, spawn_callback, raising callback, "
+    rule = ("(a) all programs of <= L scheduling calls over 28 operations {add_callback, spawn_callback, raising callback, "
             "callback returning a failing future, callback scheduling a callback and a timeout, add_timeout absolute / "
-            "timedelta, call_later, call_at with delays 0.25/0.5/1.0, a raising timeout, remove_timeout of the 1st/2nd "
+            "timedelta, call_later, call_at with delays 0.25/0.5/1.0, timedelta of 1 day + 0.5 s and of -1 s, a raising timeout, remove_timeout of the 1st/2nd "
             "timeout immediately / from a callback / from a timeout, add_future on a done and on a pending future} on the "
             "real IOLoop with a virtual clock, timers fired in order; (b) run_sync x {async returns, raises, sleeps, never "
             "finishes, plain function returns / raises, gen.coroutine} x timeout {None, 0.5, 2}; (c) 2 foreign threads x 2 "
-            "add_callback each against the loop thread, all interleavings up to a preemption bound under a controlled "
+            "add_callback each (thread 0 optionally inside another running event loop) against the loop thread, all interleavings up to a preemption bound under a controlled "
             "scheduler (mc.tsched); state = one program / schedule; non-trivial = programs with a timeout, removal, "
             "raising callback or add_future")
     claim = ("Each scheduled function runs exactly once (never after its removal), callbacks in scheduling order, timeouts "
@@ -287,7 +288,7 @@ class C38(Check):
         parts = [("prog", L, i, 32) for i in range(32)] + [("sync",)]
         try:
             from mc import tsched   # noqa: F401
-            parts += [("threads", b) for b in ((0, 1, 2) if tier == "quick" else (0, 1, 2, 3))]
+            parts += [("threads", b, fl) for b in ((0, 1, 2) if tier == "quick" else (0, 1, 2, 3)) for fl in (False, True)]
         except ImportError:
             pass
         return parts
@@ -330,7 +331,7 @@ class C38(Check):
                                      {"kind": "sync", "fn": kind, "timeout": timeout})
         else:
             from checks import c38_threads
-            c38_threads.run_bound(part[1], st)
+            c38_threads.run_bound(part[1], st, floop=part[2])
 
     def replay(self, case):
         if case["kind"] == "prog":
